@@ -397,9 +397,11 @@ PAIRED_SCOPE = ["scripting::run_script", "scripting::run_lines", "core::try_run_
                 "scripting::run_exp", "scripting::run_exp_for", "scripting::run_exp_while"]
 
 
-def pairing_rule(ctx, crate):
+def pairing_rule(ctx, crate, rule="R15-8", scope=None, strict=True, detail=None):
+    """strict: every increment of a field needs a decrement on every path to a return.  Not strict: only in functions
+    that decrement the field somewhere themselves (a bracket was intended; plain counters are left alone)."""
     n = 0
-    for p in PAIRED_SCOPE:
+    for p in (PAIRED_SCOPE if scope is None else scope):
         b = crate.fn(p)
         if b is None:
             continue
@@ -419,15 +421,18 @@ def pairing_rule(ctx, crate):
                     (incs if e[1].startswith("Add") else decs).setdefault(names[-1], set()).add(bi)
         rets = {bb for bb in b.reachable if b.term(bb)["k"] == "return"}
         for fld_, blocks in sorted(incs.items()):
+            if not strict and fld_ not in decs:
+                continue
             for ib in sorted(blocks):
                 n += 1
                 ok = fld_ in decs and flow.must_pass(b, ib, decs[fld_], rets)
-                ctx.ob("R15-8", p, "`%s += k` is undone on every path to a return" % fld_, ok,
-                       key="R15-8|%s|unbalanced|%s" % (p, fld_), where=b.loc(ib), crate=crate.kind,
-                       detail=None if ok else "an early `return` (no such file, not UTF-8, ...) leaves the counter raised: after "
-                       "enough failures every later source / call is refused or miscounted")
-    ctx.ob("R15-8", "interpreter", "%d increment(s) of shell fields in the interpreter entry points" % n, True, crate=crate.kind,
+                ctx.ob(rule, p, "`%s += k` is undone on every path to a return" % fld_, ok,
+                       key="%s|%s|unbalanced|%s" % (rule, p, fld_), where=b.loc(ib), crate=crate.kind,
+                       detail=None if ok else (detail or "an early `return` (no such file, not UTF-8, ...) leaves the counter "
+                       "raised: after enough failures every later source / call is refused or miscounted"))
+    ctx.ob(rule, "(scope)", "%d bracketed increment(s) of struct fields in scope" % n, True, crate=crate.kind,
            nontrivial=False)
+    return n
 
 
 def overwrite_rule(ctx, crate, rule, path, field):
